@@ -94,11 +94,36 @@ func checkC06(c *Ctx) {
 	nr := noReturn(f.Prog, frtProg)
 	c.checkPins(f, "C06.de", c06Pins)
 	// parseBinAfter / parseExprWithPrec start by skipping EOL before the operator test
-	if nf, fn := f.NF("parseBinAfter"); fn != nil {
-		r.Check(strings.HasPrefix(nf, "if(psCurIsBinOp(psSkipEOL(p2)), "), "C06.de", "parseBinAfter", "skip-eol-before-operator", c.Pos(f.M.Fset, fn.Decl.Pos()), "an operator on the next line continues the expression", "parseBinAfter does not skip the line end before testing for an operator")
-	}
-	if nf, fn := f.NF("parseExprWithPrec"); fn != nil {
-		r.Check(strings.HasPrefix(nf, "if(psCurIsBinOp(psSkipEOL(#0(parseTerm("), "C06.de", "parseExprWithPrec", "skip-eol-before-operator", c.Pos(f.M.Fset, fn.Decl.Pos()), "an operator on the next line continues the expression", "parseExprWithPrec does not skip the line end before testing for an operator")
+	// every operator lookup in the two functions reads the token of the state AFTER psSkipEOL (whether it is spelled
+	// psCurIsBinOp, lookupBinOpNF or a direct table lookup: the helpers are expanded first)
+	for _, an := range []struct{ fn, state string }{{"parseBinAfter", "psSkipEOL(p2)"}, {"parseExprWithPrec", "psSkipEOL(#0(parseTerm("}} {
+		nf, fn := f.NF(an.fn)
+		if fn == nil {
+			continue
+		}
+		x := f.expandTiny(nf)
+		n, bad := 0, ""
+		for k := 0; ; {
+			o := strings.Index(x[k:], "lookupBinOp(")
+			if o < 0 {
+				break
+			}
+			open := k + o + len("lookupBinOp")
+			cl := matchingClose(x, open)
+			if cl < 0 {
+				bad = "unbalanced form"
+				break
+			}
+			arg := x[open+1 : cl]
+			n++
+			if !strings.HasPrefix(arg, an.state) || !strings.HasSuffix(arg, ".tkz.current.ttype") {
+				bad = "lookupBinOp(" + short(arg, 80) + ")"
+			}
+			k = cl
+		}
+		r.Check(n > 0 && bad == "" && strings.HasPrefix(x, "if("), "C06.de", an.fn, "skip-eol-before-operator", c.Pos(f.M.Fset, fn.Decl.Pos()),
+			sprintf("an operator on the next line continues the expression: all %d operator lookups read the token after psSkipEOL", n),
+			an.fn+" does not skip the line end before testing for an operator: "+bad)
 	}
 
 	// (a)(b)(c)(h) confinement
@@ -184,7 +209,9 @@ func checkC06(c *Ctx) {
 	r.Rule("C06.k", "a SPACE token is a run of spaces, tabs, line comments (to the line end) and block comments (to the first */): closed forms of the hand-written scanner and its three helpers", 4)
 	c.expectNF(f, "C06.k", "scanSpaceToken", []string{`seq[assign($0 := 0); for((); (((isCharAt(p0, (p1 + $0), 32) || isStringAt(p0, (p1 + $0), "/*")) || isStringAt(p0, (p1 + $0), "//")) || isCharAt(p0, (p1 + $0), 9)); ()){seq[for((); isCharAt(p0, (p1 + $0), 32); assign($0 ++ 1)){seq[]}; for((); isCharAt(p0, (p1 + $0), 9); assign($0 ++ 1)){seq[]}] if(isStringAt(p0, (p1 + $0), "/*"), seq[assign($1 := searchForward(p0, ((p1 + $0) + 2), "*/"))] if(($1 == -1), seq[panic("No comment end found.")], seq[assign($0 = (($1 - p1) + 2))] if(isStringAt(p0, (p1 + $0), "//"), seq[for((); (((p1 + $0) < len(p0)) && not(isCharAt(p0, (p1 + $0), 10))); assign($0 ++ 1)){seq[]}], seq[])), if(isStringAt(p0, (p1 + $0), "//"), seq[for((); (((p1 + $0) < len(p0)) && not(isCharAt(p0, (p1 + $0), 10))); assign($0 ++ 1)){seq[]}], seq[]))}; assign(newToken(var:New_TokenType_SPACE, p1, 0).len = $0)] newToken(var:New_TokenType_SPACE, p1, 0)`}, "spaces, tabs, // to the line end, /* to the first */ found by searchForward; an unterminated block comment is a diagnostic")
 	c.expectNF(f, "C06.k", "searchForward", []string{`seq[assign($0 := p1); for((); ($0 < len(p0)); assign($0 ++ 1)){if(isStringAt(p0, $0, p2), return($0), seq[])}] -1`}, "the first position at or after start where the string occurs, -1 if none")
-	c.expectNF(f, "C06.k", "isStringAt", []string{`if(((p1 + len(p2)) > len(p0)), false, seq[range($0 _ : p2){if((p2[$0] != p0[(p1 + $0)]), return(false), seq[])}] true)`}, "the string occurs at the position (false past the end)")
+	c.expectNF(f, "C06.k", "isStringAt", []string{`if(((p1 + len(p2)) > len(p0)), false, seq[range($0 _ : p2){if((p2[$0] != p0[(p1 + $0)]), return(false), seq[])}] true)`,
+		// the same comparison as one substring equality
+		`if(((p1 + len(p2)) > len(p0)), false, (slice(p0, p1, (p1 + len(p2)), ()) == p2))`}, "the string occurs at the position (false past the end)")
 	c.expectNF(f, "C06.k", "isCharAt", []string{`if((p1 >= len(p0)), false, (p0[p1] == p2))`}, "the byte at the position (false past the end)")
 	// the if parser: one-line and multi-line forms; after `then` and `else` line ends are SKIPPED (a body may start on
 	// the same line or on a later one), never required (closed form as reviewed, including the recorded
